@@ -27,7 +27,7 @@ var DefaultInitPackages = []string{
 	"google.golang.org/protobuf/encoding/protodelim",
 	"google.golang.org/genproto/googleapis/rpc/code",
 	"github.com/gobwas/ws", "github.com/gobwas/ws/wsutil", "github.com/gobwas/pool/pbufio", "github.com/gobwas/pool/pbytes", "github.com/gobwas/pool", "github.com/gobwas/httphead", "io/ioutil", "bufio",
-	"compress/flate", "compress/gzip", "hash/crc32", "larking.io/health",
+	"compress/flate", "compress/gzip", "hash/crc32", "larking.io/health", "google.golang.org/protobuf/runtime/protoimpl",
 }
 
 // InitPackages runs the package initialisers of the listed packages and of the package under test.
